@@ -1,5 +1,5 @@
 (* C18 — proofs. *)
-Require Import V.Lib V.GoPath V.C18_Model.
+Require Import V.Lib V.GoPath V.Gen_C18 V.C18_Model.
 Open Scope N_scope.
 Local Open Scope string_scope.
 
@@ -134,10 +134,14 @@ Proof.
 Qed.
 
 (* ------------------------------------------------------------------------------------------ *)
-(* runs of well-behaved scripts *)
+(* runs of handler scripts (ANY sequence of header operations, WriteHeader, Write, Flush) *)
 
 Definition apply_hdrs (hs : list op) (h : headers) : headers :=
   fold_left (fun h o => hdr_fun o h) hs h.
+(* the header map below a compressing gzip layer: a repeated WriteHeader rewrites it again (after
+   the commit, so without effect on the response) *)
+Definition apply_hdrs_gz (r : list op) (h : headers) : headers :=
+  fold_left (fun h o => match o with OWriteHeader _ => gz_hdr h | _ => hdr_fun o h end) r h.
 
 Lemma uw_eta u : {| u_hdr := u_hdr u; u_commit := u_commit u; u_body := u_body u |} = u.
 Proof. destruct u; reflexivity. Qed.
@@ -158,85 +162,79 @@ Qed.
 Lemma uw_commit_committed c u x : u_commit u = Some x -> uw_commit c u = u.
 Proof. unfold uw_commit. intros ->. reflexivity. Qed.
 
-Lemma plain_body ws : forall u x, forallb is_body ws = true -> u_commit u = Some x ->
-  fold_left pstep ws u =
-  {| u_hdr := u_hdr u; u_commit := Some x; u_body := rev (map SP (writes ws)) ++ u_body u |}.
+(* once the response has started, whatever the handler does only appends writes *)
+Lemma plain_tail r : forall u x, u_commit u = Some x ->
+  fold_left pstep r u =
+  {| u_hdr := apply_hdrs r (u_hdr u); u_commit := Some x; u_body := rev (map SP (writes r)) ++ u_body u |}.
 Proof.
-  induction ws as [|o ws IH]; intros u x H Hc; simpl.
-  - rewrite <- Hc. symmetry. apply uw_eta.
-  - simpl in H. apply andb_true_iff in H as [Ho Hr].
-    destruct o; simpl in Ho; try discriminate.
-    + (* OWrite *)
-      simpl pstep. unfold uw_write. rewrite (uw_commit_committed _ _ _ Hc).
-      rewrite (IH _ x Hr) by (simpl; exact Hc). simpl.
-      rewrite <- app_assoc. reflexivity.
-    + (* OFlush *)
-      simpl pstep. rewrite (uw_commit_committed _ _ _ Hc).
-      rewrite (IH _ x Hr Hc). reflexivity.
+  induction r as [|o r IH]; intros u x Hc.
+  - simpl. rewrite <- Hc. symmetry. apply uw_eta.
+  - destruct o; cbn [fold_left pstep].
+    + rewrite (IH _ x) by exact Hc. reflexivity.
+    + rewrite (IH _ x) by exact Hc. reflexivity.
+    + rewrite (IH _ x) by exact Hc. reflexivity.
+    + rewrite (uw_commit_committed _ _ _ Hc). rewrite (IH _ x Hc). reflexivity.
+    + unfold uw_write. rewrite (uw_commit_committed _ _ _ Hc).
+      rewrite (IH _ x) by exact Hc. simpl. rewrite <- app_assoc. reflexivity.
+    + rewrite (uw_commit_committed _ _ _ Hc). rewrite (IH _ x Hc). reflexivity.
 Qed.
 
-(* the three shapes of a well-behaved script *)
-Inductive wb_shape : list op -> headers -> option Z -> list bytes -> Prop :=
-| shape_nil hs : forallb is_hdr hs = true -> wb_shape hs (apply_hdrs hs []) None []
-| shape_wh hs c ws : forallb is_hdr hs = true -> forallb is_body ws = true ->
-    wb_shape (hs ++ OWriteHeader c :: ws) (apply_hdrs hs []) (Some c) (writes ws)
-| shape_w hs b ws : forallb is_hdr hs = true -> forallb is_body ws = true ->
-    wb_shape (hs ++ OWrite b :: ws) (apply_hdrs hs []) (Some 200%Z) (b :: writes ws).
+(* every script: header operations, then nothing or one of WriteHeader / Write / Flush starting
+   the response, then an arbitrary tail [r] *)
+Inductive shape : list op -> headers -> headers -> option Z -> list bytes -> list op -> Prop :=
+| shape_nil hs : forallb is_hdr hs = true ->
+    shape hs (apply_hdrs hs []) (apply_hdrs hs []) None [] []
+| shape_wh hs c r : forallb is_hdr hs = true ->
+    shape (hs ++ OWriteHeader c :: r) (apply_hdrs hs []) (apply_hdrs r (apply_hdrs hs [])) (Some c) (writes r) r
+| shape_w hs b r : forallb is_hdr hs = true ->
+    shape (hs ++ OWrite b :: r) (apply_hdrs hs []) (apply_hdrs r (apply_hdrs hs [])) (Some 200%Z) (b :: writes r) r
+| shape_f hs r : forallb is_hdr hs = true ->
+    shape (hs ++ OFlush :: r) (apply_hdrs hs []) (apply_hdrs r (apply_hdrs hs [])) (Some 200%Z) (writes r) r.
 
-Lemma wb_shape_of s : wb s = true -> exists H oc wr, wb_shape s H oc wr.
+Lemma shape_of s : exists H H' oc wr r, shape s H H' oc wr r.
 Proof.
-  intros Hwb.
   assert (G : exists hs bs, s = hs ++ bs /\ forallb is_hdr hs = true /\
-            (bs = [] \/ (exists c ws, bs = OWriteHeader c :: ws /\ forallb is_body ws = true)
-                     \/ (exists b ws, bs = OWrite b :: ws /\ forallb is_body ws = true))).
+            (bs = [] \/ exists o r, bs = o :: r /\ is_hdr o = false)).
   { induction s as [|o s IH].
     - exists [], []. repeat split; auto.
-    - simpl in Hwb. destruct (is_hdr o) eqn:Ho.
-      + destruct (IH Hwb) as (hs & bs & -> & Hhs & Hbs).
+    - destruct (is_hdr o) eqn:Ho.
+      + destruct IH as (hs & bs & -> & Hhs & Hbs).
         exists (o :: hs), bs. simpl. rewrite Ho, Hhs. repeat split; auto.
-      + destruct o; simpl in Ho; try discriminate.
-        * exists [], (OWriteHeader code :: s). repeat split; auto.
-          right; left. exists code, s. split; auto.
-        * exists [], (OWrite b :: s). repeat split; auto.
-          right; right. exists b, s. split; auto. }
-  destruct G as (hs & bs & -> & Hhs & [-> | [(c & ws & -> & Hws) | (b & ws & -> & Hws)]]).
-  - rewrite app_nil_r. do 3 eexists. apply shape_nil. exact Hhs.
-  - do 3 eexists. apply shape_wh; assumption.
-  - do 3 eexists. apply shape_w; assumption.
+      + exists [], (o :: s). repeat split; auto. right. exists o, s. split; auto. }
+  destruct G as (hs & bs & -> & Hhs & [-> | (o & r & -> & Ho)]).
+  - rewrite app_nil_r. do 5 eexists. apply shape_nil. exact Hhs.
+  - destruct o; simpl in Ho; try discriminate.
+    + do 5 eexists. apply shape_wh. exact Hhs.
+    + do 5 eexists. apply shape_w. exact Hhs.
+    + do 5 eexists. apply shape_f. exact Hhs.
 Qed.
 
-Definition closed_plain (H : headers) (oc : option Z) (wr : list bytes) : uw :=
-  {| u_hdr := H; u_commit := option_map (fun c => (c, H)) oc; u_body := rev (map SP wr) |}.
+Definition closed_plain (H' H : headers) (oc : option Z) (wr : list bytes) : uw :=
+  {| u_hdr := H'; u_commit := option_map (fun c => (c, H)) oc; u_body := rev (map SP wr) |}.
 
-Lemma plain_of_shape s H oc wr : wb_shape s H oc wr -> run_plain s = closed_plain H oc wr.
+Lemma plain_of_shape s H H' oc wr r : shape s H H' oc wr r -> run_plain s = closed_plain H' H oc wr.
 Proof.
-  intros Hs. unfold run_plain, closed_plain. destruct Hs as [hs Hhs | hs c ws Hhs Hws | hs b ws Hhs Hws].
+  intros Hs. unfold run_plain, closed_plain. destruct Hs as [hs Hhs | hs c r Hhs | hs b r Hhs | hs r Hhs].
   - rewrite plain_hdrs by exact Hhs. reflexivity.
-  - rewrite fold_left_app. rewrite (plain_hdrs hs) by exact Hhs. simpl fold_left.
-    unfold uw_sethdr at 1. simpl u_hdr. simpl u_commit. simpl u_body.
-    unfold uw_commit at 1. simpl.
-    rewrite (plain_body ws _ (c, apply_hdrs hs []) Hws) by reflexivity. simpl.
+  - rewrite fold_left_app. rewrite (plain_hdrs hs) by exact Hhs. cbn [fold_left pstep].
+    rewrite (plain_tail r _ (c, apply_hdrs hs [])) by reflexivity. simpl.
     rewrite app_nil_r. reflexivity.
-  - rewrite fold_left_app. rewrite (plain_hdrs hs) by exact Hhs. simpl fold_left.
-    unfold uw_sethdr at 1. simpl.
-    unfold uw_write at 1. unfold uw_commit at 1 2 3. simpl.
-    rewrite (plain_body ws _ (200%Z, apply_hdrs hs []) Hws) by reflexivity. simpl.
+  - rewrite fold_left_app. rewrite (plain_hdrs hs) by exact Hhs. cbn [fold_left pstep].
+    rewrite (plain_tail r _ (200%Z, apply_hdrs hs [])) by reflexivity. simpl.
     reflexivity.
+  - rewrite fold_left_app. rewrite (plain_hdrs hs) by exact Hhs. cbn [fold_left pstep].
+    rewrite (plain_tail r _ (200%Z, apply_hdrs hs [])) by reflexivity. simpl.
+    rewrite app_nil_r. reflexivity.
 Qed.
 
 Section WithTables.
-Variable sl : list bytes.
 Variable dexts : list bytes.
 
-Lemma gstep_hdr c o g : is_hdr o = true -> gstep sl c g o = g_with_u (uw_sethdr (hdr_fun o)) g.
+Lemma gstep_hdr c o g : is_hdr o = true -> gstep c g o = g_with_u (uw_sethdr (hdr_fun o)) g.
 Proof. destruct o; simpl; intros H; try discriminate; reflexivity. Qed.
 
-Lemma g_eta g : {| g_u := g_u g; g_rfw := g_rfw g; g_should := g_should g; g_gzw := g_gzw g;
-                   g_active := g_active g; g_ws := g_ws g |} = g.
-Proof. destruct g; reflexivity. Qed.
-
 Lemma gz_hdrs c hs g : forallb is_hdr hs = true ->
-  fold_left (gstep sl c) hs g = g_with_u (uw_sethdr (apply_hdrs hs)) g.
+  fold_left (gstep c) hs g = g_with_u (uw_sethdr (apply_hdrs hs)) g.
 Proof.
   revert g. induction hs as [|o hs IH]; intros g H; simpl.
   - destruct g as [[h cm b] r s z a w]; reflexivity.
@@ -245,44 +243,67 @@ Proof.
     unfold g_with_u, uw_sethdr, apply_hdrs. simpl. reflexivity.
 Qed.
 
-(* body phase when the filters said "do not compress": the layer is transparent plumbing *)
-Lemma gz_body_plain c ws : forall g, forallb is_body ws = true -> g_rfw g = true -> g_should g = false ->
-  fold_left (gstep sl c) ws g = g_with_u (fun u => fold_left pstep ws u) g.
+Lemma rf_flush_written c g : g_rfw g = true -> rf_flush c g = g_with_u (uw_commit 200) g.
+Proof. unfold rf_flush. intros ->. reflexivity. Qed.
+
+(* after the header, when the filters said "do not compress": the layer is transparent plumbing,
+   whatever the handler goes on to do (repeated WriteHeader included) *)
+Lemma gz_tail_plain c r : forall g, g_rfw g = true -> g_should g = false ->
+  fold_left (gstep c) r g = g_with_u (fun u => fold_left pstep r u) g.
 Proof.
-  induction ws as [|o ws IH]; intros g H Hr Hs.
-  - destruct g as [[h cm b] r s z a w]; reflexivity.
-  - simpl in H. apply andb_true_iff in H as [Ho Hws].
-    destruct g as [u r s z a w]. simpl in Hr, Hs. subst r s.
-    destruct o; simpl in Ho; try discriminate.
-    + cbn [fold_left gstep]. unfold rf_write. cbn [g_rfw g_should g_u g_gzw g_active g_ws].
-      rewrite IH by (try exact Hws; reflexivity). reflexivity.
-    + cbn [fold_left gstep]. unfold g_with_u at 2. cbn [g_rfw g_should g_u g_gzw g_active g_ws].
-      rewrite IH by (try exact Hws; reflexivity). reflexivity.
+  induction r as [|o r IH]; intros g Hr Hs.
+  - destruct g as [[h cm b] rr s z a w]; reflexivity.
+  - destruct g as [u rr s z a w]. simpl in Hr, Hs. subst rr s.
+    destruct o; cbn [fold_left gstep].
+    + unfold g_with_u at 2. cbn [g_rfw g_should g_u g_gzw g_active g_ws].
+      rewrite IH by reflexivity. reflexivity.
+    + unfold g_with_u at 2. cbn [g_rfw g_should g_u g_gzw g_active g_ws].
+      rewrite IH by reflexivity. reflexivity.
+    + unfold g_with_u at 2. cbn [g_rfw g_should g_u g_gzw g_active g_ws].
+      rewrite IH by reflexivity. reflexivity.
+    + unfold rf_write_header. cbn [g_rfw g_should g_u g_gzw g_active g_ws].
+      rewrite IH by reflexivity. reflexivity.
+    + unfold rf_write. cbn [g_rfw g_should g_u g_gzw g_active g_ws].
+      rewrite IH by reflexivity. reflexivity.
+    + rewrite rf_flush_written by reflexivity.
+      unfold g_with_u at 2. cbn [g_rfw g_should g_u g_gzw g_active g_ws].
+      rewrite IH by reflexivity. reflexivity.
 Qed.
 
-(* body phase when compressing: writes go to the gzip.Writer, flushes do nothing new *)
-Lemma gz_body_comp c ws : forall g x, forallb is_body ws = true ->
+(* after the header, when compressing: writes go to the gzip.Writer; flushes, repeated
+   WriteHeaders and late header operations change nothing that is sent *)
+Lemma gz_tail_comp c r : forall g x,
   g_rfw g = true -> g_should g = true -> g_gzw g = true -> g_active g = true -> u_commit (g_u g) = Some x ->
-  fold_left (gstep sl c) ws g =
-  {| g_u := g_u g; g_rfw := true; g_should := true; g_gzw := true; g_active := true;
-     g_ws := rev (writes ws) ++ g_ws g |}.
+  fold_left (gstep c) r g =
+  {| g_u := {| u_hdr := apply_hdrs_gz r (u_hdr (g_u g)); u_commit := Some x; u_body := u_body (g_u g) |};
+     g_rfw := true; g_should := true; g_gzw := true; g_active := true;
+     g_ws := rev (writes r) ++ g_ws g |}.
 Proof.
-  induction ws as [|o ws IH]; intros g x H Hr Hs Hz Ha Hc.
-  - destruct g as [u r s z a w]. simpl in *. subst r s z a. reflexivity.
-  - simpl in H. apply andb_true_iff in H as [Ho Hws].
-    destruct g as [u r s z a w]. simpl in Hr, Hs, Hz, Ha, Hc. subst r s z a.
-    destruct o; simpl in Ho; try discriminate.
-    + cbn [fold_left gstep]. unfold rf_write. cbn [g_rfw g_should g_u g_gzw g_active g_ws].
-      rewrite (IH _ x Hws) by (try reflexivity; exact Hc).
+  induction r as [|o r IH]; intros g x Hr Hs Hz Ha Hc.
+  - destruct g as [[h cm b] rr s z a w]. simpl in *. subst rr s z a cm. reflexivity.
+  - destruct g as [u rr s z a w]. simpl in Hr, Hs, Hz, Ha, Hc. subst rr s z a.
+    destruct o; cbn [fold_left gstep].
+    + unfold g_with_u. cbn [g_rfw g_should g_u g_gzw g_active g_ws].
+      rewrite (IH _ x) by (try reflexivity; exact Hc). reflexivity.
+    + unfold g_with_u. cbn [g_rfw g_should g_u g_gzw g_active g_ws].
+      rewrite (IH _ x) by (try reflexivity; exact Hc). reflexivity.
+    + unfold g_with_u. cbn [g_rfw g_should g_u g_gzw g_active g_ws].
+      rewrite (IH _ x) by (try reflexivity; exact Hc). reflexivity.
+    + unfold rf_write_header, gz_write_header. cbn [g_rfw g_should g_u g_gzw g_active g_ws].
+      rewrite (uw_commit_committed code (uw_sethdr gz_hdr u) x) by exact Hc.
+      rewrite (IH _ x) by (try reflexivity; exact Hc). reflexivity.
+    + unfold rf_write. cbn [g_rfw g_should g_u g_gzw g_active g_ws].
+      rewrite (IH _ x) by (try reflexivity; exact Hc).
       cbn [g_rfw g_should g_u g_gzw g_active g_ws writes flat_map]. simpl rev.
       rewrite <- app_assoc. reflexivity.
-    + cbn [fold_left gstep]. unfold g_with_u. cbn [g_rfw g_should g_u g_gzw g_active g_ws].
+    + rewrite rf_flush_written by reflexivity.
+      unfold g_with_u. cbn [g_rfw g_should g_u g_gzw g_active g_ws].
       rewrite (uw_commit_committed _ _ _ Hc).
-      rewrite (IH _ x Hws) by (try reflexivity; exact Hc). reflexivity.
+      rewrite (IH _ x) by (try reflexivity; exact Hc). reflexivity.
 Qed.
 
-Definition closed_gz (H : headers) (code : Z) (wr : list bytes) : uw :=
-  {| u_hdr := gz_hdr H; u_commit := Some (code, gz_hdr H); u_body := [SG wr] |}.
+Definition closed_gz (H' H : headers) (code : Z) (wr : list bytes) : uw :=
+  {| u_hdr := H'; u_commit := Some (code, gz_hdr H); u_body := [SG wr] |}.
 
 (* state after the header phase of a fresh request *)
 Definition gH (H : headers) : gst :=
@@ -290,56 +311,70 @@ Definition gH (H : headers) : gst :=
      g_rfw := false; g_should := false; g_gzw := false; g_active := false; g_ws := [] |}.
 
 Lemma after_hdrs c hs : forallb is_hdr hs = true ->
-  fold_left (gstep sl c) hs (g0) = gH (apply_hdrs hs []).
+  fold_left (gstep c) hs (g0) = gH (apply_hdrs hs []).
 Proof. intros H. rewrite gz_hdrs by exact H. reflexivity. Qed.
 
-Lemma rfwh_true c H code : resp_ok sl c H = true ->
-  rf_write_header sl c code (gH H) =
+Lemma rfwh_true c H code : resp_ok c H = true ->
+  rf_write_header c code (gH H) =
   {| g_u := {| u_hdr := gz_hdr H; u_commit := Some (code, gz_hdr H); u_body := [] |};
      g_rfw := true; g_should := true; g_gzw := true; g_active := true; g_ws := [] |}.
-Proof. intros Hok. unfold rf_write_header, gH. cbn [g_u u_hdr]. rewrite Hok. reflexivity. Qed.
+Proof. intros Hok. unfold rf_write_header, gH. cbn [g_rfw g_u u_hdr]. rewrite Hok. reflexivity. Qed.
 
-Lemma rfwh_false c H code : resp_ok sl c H = false ->
-  rf_write_header sl c code (gH H) =
+Lemma rfwh_false c H code : resp_ok c H = false ->
+  rf_write_header c code (gH H) =
   {| g_u := {| u_hdr := H; u_commit := Some (code, H); u_body := [] |};
      g_rfw := true; g_should := false; g_gzw := false; g_active := false; g_ws := [] |}.
-Proof. intros Hok. unfold rf_write_header, gH. cbn [g_u u_hdr]. rewrite Hok. reflexivity. Qed.
+Proof. intros Hok. unfold rf_write_header, gH. cbn [g_rfw g_u u_hdr]. rewrite Hok. reflexivity. Qed.
 
-Lemma gz_of_shape c s H oc wr : wb_shape s H oc wr ->
-  run_gz sl c s =
+Lemma gz_of_shape c s H H' oc wr r : shape s H H' oc wr r ->
+  run_gz c s =
   match oc with
   | None => run_plain s
-  | Some code => if resp_ok sl c H then closed_gz H code wr else run_plain s
+  | Some code => if resp_ok c H then closed_gz (apply_hdrs_gz r (gz_hdr H)) H code wr else run_plain s
   end.
 Proof.
-  intros Hs. pose proof (plain_of_shape _ _ _ _ Hs) as Hp.
-  destruct Hs as [hs Hhs | hs code ws Hhs Hws | hs b ws Hhs Hws].
+  intros Hs. pose proof (plain_of_shape _ _ _ _ _ _ Hs) as Hp.
+  destruct Hs as [hs Hhs | hs code r Hhs | hs b r Hhs | hs r Hhs].
   - rewrite Hp. unfold run_gz. rewrite after_hdrs by exact Hhs. reflexivity.
   - unfold run_gz. rewrite fold_left_app. rewrite (after_hdrs c hs) by exact Hhs.
     cbn [fold_left gstep].
-    destruct (resp_ok sl c (apply_hdrs hs [])) eqn:Hok.
+    destruct (resp_ok c (apply_hdrs hs [])) eqn:Hok.
     + rewrite rfwh_true by exact Hok.
-      erewrite gz_body_comp; try reflexivity; try exact Hws.
+      erewrite gz_tail_comp; try reflexivity.
       unfold g_finish, closed_gz. cbn. rewrite app_nil_r, rev_involutive. reflexivity.
     + rewrite Hp. rewrite rfwh_false by exact Hok.
-      rewrite gz_body_plain by (try exact Hws; reflexivity).
+      rewrite gz_tail_plain by reflexivity.
       unfold g_finish, g_with_u. cbn [g_active g_u].
-      rewrite (plain_body ws _ (code, apply_hdrs hs []) Hws) by reflexivity.
+      rewrite (plain_tail r _ (code, apply_hdrs hs [])) by reflexivity.
       unfold closed_plain. cbn. rewrite app_nil_r. reflexivity.
   - unfold run_gz. rewrite fold_left_app. rewrite (after_hdrs c hs) by exact Hhs.
     cbn [fold_left gstep]. unfold rf_write at 1. cbn [g_rfw gH].
-    destruct (resp_ok sl c (apply_hdrs hs [])) eqn:Hok.
+    destruct (resp_ok c (apply_hdrs hs [])) eqn:Hok.
     + fold (gH (apply_hdrs hs [])). rewrite rfwh_true by exact Hok.
       cbn [g_rfw g_should g_u g_gzw g_active g_ws].
-      erewrite gz_body_comp; try reflexivity; try exact Hws.
+      erewrite gz_tail_comp; try reflexivity.
       unfold g_finish, closed_gz. cbn. rewrite rev_app_distr, rev_involutive. reflexivity.
     + rewrite Hp. fold (gH (apply_hdrs hs [])). rewrite rfwh_false by exact Hok.
       cbn [g_rfw g_should g_u g_gzw g_active g_ws].
-      rewrite gz_body_plain by (try exact Hws; reflexivity).
+      rewrite gz_tail_plain by reflexivity.
       unfold g_finish, g_with_u. cbn [g_active g_u].
       unfold uw_write at 1. unfold uw_commit at 1 2 3. cbn [u_commit u_hdr u_body].
-      rewrite (plain_body ws _ (200%Z, apply_hdrs hs []) Hws) by reflexivity.
+      rewrite (plain_tail r _ (200%Z, apply_hdrs hs [])) by reflexivity.
       unfold closed_plain. cbn. reflexivity.
+  - unfold run_gz. rewrite fold_left_app. rewrite (after_hdrs c hs) by exact Hhs.
+    cbn [fold_left gstep]. unfold rf_flush at 1. cbn [g_rfw gH].
+    fold (gH (apply_hdrs hs [])).
+    destruct (resp_ok c (apply_hdrs hs [])) eqn:Hok.
+    + rewrite rfwh_true by exact Hok. unfold g_with_u at 1, uw_commit at 1.
+      cbn [g_rfw g_should g_u g_gzw g_active g_ws u_commit].
+      erewrite gz_tail_comp; try reflexivity.
+      unfold g_finish, closed_gz. cbn. rewrite app_nil_r, rev_involutive. reflexivity.
+    + rewrite Hp. rewrite rfwh_false by exact Hok. unfold g_with_u at 1, uw_commit at 1.
+      cbn [g_rfw g_should g_u g_gzw g_active g_ws u_commit].
+      rewrite gz_tail_plain by reflexivity.
+      unfold g_finish, g_with_u. cbn [g_active g_u].
+      rewrite (plain_tail r _ (200%Z, apply_hdrs hs [])) by reflexivity.
+      unfold closed_plain. cbn. rewrite app_nil_r. reflexivity.
 Qed.
 
 End WithTables.
@@ -350,7 +385,7 @@ End WithTables.
 Lemma concat_render_SP gz wr : concat (map (render gz) (map SP wr)) = concat wr.
 Proof. induction wr as [|w wr IH]; simpl; [reflexivity | rewrite IH; reflexivity]. Qed.
 
-Lemma has_gz_plain H oc wr : has_gz (closed_plain H oc wr) = false.
+Lemma has_gz_plain H' H oc wr : has_gz (closed_plain H' H oc wr) = false.
 Proof.
   unfold has_gz, closed_plain. simpl.
   destruct (existsb _ _) eqn:E; [|reflexivity].
@@ -358,140 +393,271 @@ Proof.
   discriminate.
 Qed.
 
-Lemma status_plain H code wr : r_status (closed_plain H (Some code) wr) = code. Proof. reflexivity. Qed.
-Lemma status_gz H code wr : r_status (closed_gz H code wr) = code. Proof. reflexivity. Qed.
-Lemma hdr_plain H oc wr : r_hdr (closed_plain H oc wr) = H. Proof. destruct oc; reflexivity. Qed.
-Lemma hdr_gz H code wr : r_hdr (closed_gz H code wr) = gz_hdr H. Proof. reflexivity. Qed.
+Lemma status_plain H' H code wr : r_status (closed_plain H' H (Some code) wr) = code. Proof. reflexivity. Qed.
+Lemma status_gz H' H code wr : r_status (closed_gz H' H code wr) = code. Proof. reflexivity. Qed.
+Lemma hdr_plain H' H code wr : r_hdr (closed_plain H' H (Some code) wr) = H. Proof. reflexivity. Qed.
+Lemma hdr_gz H' H code wr : r_hdr (closed_gz H' H code wr) = gz_hdr H. Proof. reflexivity. Qed.
 
-Lemma wire_plain gz head H code wr :
-  wire gz head (closed_plain H (Some code) wr) = if bodyless head code then [] else concat wr.
+(* the headers the identity run sends *)
+Lemma hdr_of_shape s H H' oc wr r : shape s H H' oc wr r -> r_hdr (run_plain s) = H.
+Proof.
+  intros Hs. rewrite (plain_of_shape _ _ _ _ _ _ Hs).
+  destruct Hs; reflexivity.
+Qed.
+
+Lemma wire_plain gz head H' H code wr :
+  wire gz head (closed_plain H' H (Some code) wr) = if bodyless head code then [] else concat wr.
 Proof.
   unfold wire. rewrite status_plain. destruct (bodyless head code); [reflexivity|].
   unfold r_segs, closed_plain. simpl u_body. rewrite rev_involutive. apply concat_render_SP.
 Qed.
 
-Lemma wire_gz gz head H code wr :
-  wire gz head (closed_gz H code wr) = if bodyless head code then [] else gz wr.
+Lemma wire_gz gz head H' H code wr :
+  wire gz head (closed_gz H' H code wr) = if bodyless head code then [] else gz wr.
 Proof.
   unfold wire. rewrite status_gz. destruct (bodyless head code); [reflexivity|].
   unfold r_segs, closed_gz. simpl. apply app_nil_r.
 Qed.
 
+Lemma all_plain_SP wr : all_plain (map SP wr) = Some (concat wr).
+Proof. unfold all_plain. induction wr as [|w wr IH]; simpl; [reflexivity|]. rewrite IH. reflexivity. Qed.
+
 Section Serve.
-Variable sl : list bytes.
 Variable dexts : list bytes.
 
-(* every run of the gzip middleware on a well-behaved handler is the identity run, or the
+(* every run of the gzip middleware, on ANY handler script, is the identity run, or the
    "compressed" closed form reached through a config that accepted request and response *)
-Lemma serve_cases cs cfgs path ae s : wb s = true ->
-  gzip_serve sl dexts cs cfgs path ae s = run_plain s \/
-  exists c H code wr,
-    contains ae GZIP = true /\ find (req_ok dexts cs path) cfgs = Some c /\ resp_ok sl c H = true /\
-    run_plain s = closed_plain H (Some code) wr /\
-    gzip_serve sl dexts cs cfgs path ae s = closed_gz H code wr.
+Lemma serve_cases cs cfgs path ae s :
+  gzip_serve dexts cs cfgs path ae s = run_plain s \/
+  exists c H H1 H2 code wr,
+    accepts_gzip ae = true /\ find (req_ok dexts cs path) cfgs = Some c /\ resp_ok c H = true /\
+    run_plain s = closed_plain H1 H (Some code) wr /\
+    gzip_serve dexts cs cfgs path ae s = closed_gz H2 H code wr.
 Proof.
-  intros Hwb. unfold gzip_serve.
-  destruct (contains ae GZIP) eqn:Hae; simpl; [|left; reflexivity].
+  unfold gzip_serve.
+  destruct (accepts_gzip ae) eqn:Hae; simpl; [|left; reflexivity].
   destruct (find (req_ok dexts cs path) cfgs) as [c|] eqn:Hf; [|left; reflexivity].
-  destruct (wb_shape_of s Hwb) as (H & oc & wr & Hs).
-  rewrite (gz_of_shape sl c s H oc wr Hs).
+  destruct (shape_of s) as (H & H' & oc & wr & r & Hs).
+  rewrite (gz_of_shape c s H H' oc wr r Hs).
   destruct oc as [code|]; [|left; reflexivity].
-  destruct (resp_ok sl c H) eqn:Hok; [|left; reflexivity].
-  right. exists c, H, code, wr. repeat split; auto.
-  apply plain_of_shape. exact Hs.
+  destruct (resp_ok c H) eqn:Hok; [|left; reflexivity].
+  right. exists c, H, H', (apply_hdrs_gz r (gz_hdr H)), code, wr. repeat split; auto.
+  apply (plain_of_shape _ _ _ _ _ _ Hs).
 Qed.
 
-Lemma resp_ok_skip c H : resp_ok sl c H = true -> existsb (beq (hget H K_CE)) sl = false.
+Lemma skip_ok_no_coding vals : skip_ok vals = no_coding vals.
 Proof.
-  unfold resp_ok, skip_ok. intros Hok. apply andb_true_iff in Hok as [Hs _].
-  apply negb_true_iff in Hs. exact Hs.
+  unfold skip_ok, no_coding, is_identity. induction vals as [|v vals IH]; simpl; [reflexivity|].
+  rewrite IH. destruct (beq v []), (beq v IDENTITY); reflexivity.
 Qed.
 
-Lemma ce_in_skip_blocks c H x : hvals H K_CE = [x] -> In x sl -> resp_ok sl c H = false.
+Lemma resp_ok_no_coding c H : resp_ok c H = true -> no_coding (hvals H K_CE) = true.
 Proof.
-  intros Hv Hin. destruct (resp_ok sl c H) eqn:Hok; [|reflexivity].
-  apply resp_ok_skip in Hok. unfold hget in Hok. rewrite Hv in Hok.
-  apply existsb_beq_In in Hin. congruence.
+  unfold resp_ok. intros Hok. apply andb_true_iff in Hok as [Hs _].
+  rewrite skip_ok_no_coding in Hs. exact Hs.
+Qed.
+
+Lemma no_coding_codings vals : no_coding vals = true -> codings vals = [].
+Proof.
+  unfold no_coding, codings. induction vals as [|v vals IH]; simpl; [reflexivity|].
+  intros H. apply andb_true_iff in H as [Hv Hr]. rewrite Hv. simpl. exact (IH Hr).
 Qed.
 
 (* ---- transparency ---- *)
 Lemma gzip_transparent gz gunzip :
   (forall ws, gunzip (gz ws) = Some (concat ws)) ->
   forall cs cfgs path ae head s,
-  wb s = true ->
-  (r_ce (run_plain s) = [] \/ exists c, r_ce (run_plain s) = [c] /\ In c sl) ->
-  transparent gz gunzip head (gzip_serve sl dexts cs cfgs path ae s) (run_plain s).
+  transparent gz gunzip head (gzip_serve dexts cs cfgs path ae s) (run_plain s).
 Proof.
-  intros Hrt cs cfgs path ae head s Hwb Hce.
-  destruct (serve_cases cs cfgs path ae s Hwb) as [-> | (c & H & code & wr & _ & _ & Hok & Hp & ->)].
+  intros Hrt cs cfgs path ae head s.
+  destruct (serve_cases cs cfgs path ae s) as [-> | (c & H & H1 & H2 & code & wr & _ & _ & Hok & Hp & ->)].
   - split; [reflexivity|]. left. split; reflexivity.
   - rewrite Hp in *. split; [reflexivity|].
-    unfold r_ce in Hce. rewrite hdr_plain in Hce.
-    destruct Hce as [Hnil | (x & Hx & Hin)].
-    + right. unfold r_ce. rewrite hdr_plain, hdr_gz, gz_hdr_ce. repeat split; auto.
-      rewrite status_gz, wire_gz, wire_plain.
-      destruct (bodyless head code); [left; reflexivity | right; apply Hrt].
-    + rewrite (ce_in_skip_blocks c H x Hx Hin) in Hok. discriminate.
+    right. unfold r_ce. rewrite hdr_plain, hdr_gz, gz_hdr_ce.
+    split; [exact (resp_ok_no_coding c H Hok)|]. split; [reflexivity|].
+    rewrite status_gz, wire_gz, wire_plain.
+    destruct (bodyless head code); [left; reflexivity | right; apply Hrt].
 Qed.
 
 Lemma client_view gz gunzip :
   (forall ws, gunzip (gz ws) = Some (concat ws)) ->
   forall cs cfgs path ae head s,
-  wb s = true -> r_ce (run_plain s) = [] ->
-  client_body gz gunzip head (gzip_serve sl dexts cs cfgs path ae s) = Some (wire gz head (run_plain s)).
+  no_coding (r_ce (run_plain s)) = true ->
+  client_body gz gunzip head (gzip_serve dexts cs cfgs path ae s) = Some (wire gz head (run_plain s)).
 Proof.
-  intros Hrt cs cfgs path ae head s Hwb Hce.
-  destruct (serve_cases cs cfgs path ae s Hwb) as [-> | (c & H & code & wr & _ & _ & Hok & Hp & ->)].
-  - unfold client_body. rewrite Hce. unfold wire. destruct (bodyless head (r_status (run_plain s))); reflexivity.
+  intros Hrt cs cfgs path ae head s Hce.
+  destruct (serve_cases cs cfgs path ae s) as [-> | (c & H & H1 & H2 & code & wr & _ & _ & Hok & Hp & ->)].
+  - unfold client_body. rewrite (no_coding_codings _ Hce). unfold wire.
+    destruct (bodyless head (r_status (run_plain s))); reflexivity.
   - rewrite Hp. unfold client_body. rewrite status_gz, wire_gz, wire_plain.
     unfold r_ce. rewrite hdr_gz, gz_hdr_ce.
     destruct (bodyless head code); [reflexivity|].
-    rewrite beq_refl. apply Hrt.
+    change (codings [GZIP]) with [GZIP]. cbv iota. rewrite beq_refl. apply Hrt.
+Qed.
+
+(* ---- one representation: all plain, or one gzip stream; never a mixture ---- *)
+Lemma one_representation cs cfgs path ae s :
+  let out := gzip_serve dexts cs cfgs path ae s in
+  (applied out = [] /\ all_plain (r_segs out) = all_plain (r_segs (run_plain s)) /\
+   exists b, all_plain (r_segs out) = Some b) \/
+  (applied out = [GZIP] /\ exists ws, r_segs out = [SG ws] /\ all_plain (r_segs (run_plain s)) = Some (concat ws)).
+Proof.
+  intros out. unfold out.
+  destruct (shape_of s) as (H0 & H0' & oc0 & wr0 & r0 & Hs0).
+  pose proof (plain_of_shape _ _ _ _ _ _ Hs0) as Hp0.
+  destruct (serve_cases cs cfgs path ae s) as [-> | (c & H & H1 & H2 & code & wr & _ & _ & Hok & Hp & ->)].
+  - left. unfold applied. rewrite Hp0, has_gz_plain. repeat split.
+    exists (concat wr0). unfold r_segs, closed_plain. cbn [u_body]. rewrite rev_involutive. apply all_plain_SP.
+  - right. split; [reflexivity|]. exists wr. split; [reflexivity|].
+    rewrite Hp. unfold r_segs, closed_plain. cbn [u_body]. rewrite rev_involutive. apply all_plain_SP.
 Qed.
 
 (* ---- Content-Encoding names exactly what was applied ---- *)
 Lemma ce_exact cs cfgs path ae s :
-  wb s = true ->
-  (r_ce (run_plain s) = [] \/ exists c, r_ce (run_plain s) = [c] /\ In c sl) ->
-  let out := gzip_serve sl dexts cs cfgs path ae s in
-  r_ce out = r_ce (run_plain s) ++ applied out.
+  let out := gzip_serve dexts cs cfgs path ae s in
+  (applied out = [] -> r_ce out = r_ce (run_plain s)) /\
+  codings (r_ce out) = codings (r_ce (run_plain s)) ++ applied out.
 Proof.
-  intros Hwb Hce out. unfold out.
-  destruct (wb_shape_of s Hwb) as (H0 & oc0 & wr0 & Hs0).
-  pose proof (plain_of_shape _ _ _ _ Hs0) as Hp0.
-  destruct (serve_cases cs cfgs path ae s Hwb) as [-> | (c & H & code & wr & _ & _ & Hok & Hp & ->)].
-  - unfold applied. rewrite Hp0, has_gz_plain, app_nil_r. reflexivity.
-  - rewrite Hp in *. unfold r_ce in *. rewrite hdr_plain in *. rewrite hdr_gz, gz_hdr_ce.
-    destruct Hce as [-> | (x & Hx & Hin)].
-    + reflexivity.
-    + rewrite (ce_in_skip_blocks c H x Hx Hin) in Hok. discriminate.
+  intros out. unfold out.
+  destruct (shape_of s) as (H0 & H0' & oc0 & wr0 & r0 & Hs0).
+  pose proof (plain_of_shape _ _ _ _ _ _ Hs0) as Hp0.
+  destruct (serve_cases cs cfgs path ae s) as [-> | (c & H & H1 & H2 & code & wr & _ & _ & Hok & Hp & ->)].
+  - unfold applied. rewrite Hp0, has_gz_plain, app_nil_r. split; reflexivity.
+  - rewrite Hp. split; [intros Happ; discriminate Happ|].
+    unfold r_ce. rewrite hdr_plain, hdr_gz, gz_hdr_ce.
+    rewrite (no_coding_codings _ (resp_ok_no_coding c H Hok)). reflexivity.
 Qed.
 
-(* ---- already encoded (with a listed coding) => not touched at all ---- *)
-Lemma not_double_encoded cs cfgs path ae s x :
-  wb s = true -> r_ce (run_plain s) = [x] -> In x sl ->
-  gzip_serve sl dexts cs cfgs path ae s = run_plain s.
+(* ---- already encoded (any Content-Encoding value other than "" / identity) => not touched at all ---- *)
+Lemma not_double_encoded cs cfgs path ae s :
+  no_coding (r_ce (run_plain s)) = false ->
+  gzip_serve dexts cs cfgs path ae s = run_plain s.
 Proof.
-  intros Hwb Hx Hin.
-  destruct (serve_cases cs cfgs path ae s Hwb) as [-> | (c & H & code & wr & _ & _ & Hok & Hp & ->)]; [reflexivity|].
+  intros Hx.
+  destruct (serve_cases cs cfgs path ae s) as [-> | (c & H & H1 & H2 & code & wr & _ & _ & Hok & Hp & ->)]; [reflexivity|].
   rewrite Hp in Hx. unfold r_ce in Hx. rewrite hdr_plain in Hx.
-  rewrite (ce_in_skip_blocks c H x Hx Hin) in Hok. discriminate.
+  rewrite (resp_ok_no_coding c H Hok) in Hx. discriminate.
 Qed.
 
 (* ---- Content-Length absent or correct ---- *)
 Lemma content_length_ok gz cs cfgs path ae head s :
-  wb s = true -> cl_correct gz head (run_plain s) ->
-  cl_correct gz head (gzip_serve sl dexts cs cfgs path ae s).
+  cl_correct gz head (run_plain s) ->
+  cl_correct gz head (gzip_serve dexts cs cfgs path ae s).
 Proof.
-  intros Hwb Hcl.
-  destruct (serve_cases cs cfgs path ae s Hwb) as [-> | (c & H & code & wr & _ & _ & Hok & Hp & ->)]; [exact Hcl|].
+  intros Hcl.
+  destruct (serve_cases cs cfgs path ae s) as [-> | (c & H & H1 & H2 & code & wr & _ & _ & Hok & Hp & ->)]; [exact Hcl|].
   left. unfold r_cl. rewrite hdr_gz. apply gz_hdr_cl.
 Qed.
 
-(* ---- no gzip in Accept-Encoding (as the code reads it) => identity ---- *)
-Lemma identity_when_no_gzip_substring cs cfgs path ae s :
-  contains ae GZIP = false -> gzip_serve sl dexts cs cfgs path ae s = run_plain s.
+(* ---- gzip not offered in Accept-Encoding => identity ---- *)
+Lemma identity_when_not_accepted cs cfgs path ae s :
+  accepts_gzip ae = false -> gzip_serve dexts cs cfgs path ae s = run_plain s.
 Proof. intros H. unfold gzip_serve. rewrite H. reflexivity. Qed.
+
+(* the code's reading of Accept-Encoding (acceptsGzip) is at least as strict as RFC 7231's
+   ([offers_gzip], the executable spec's): whenever the code sees gzip offered, so does the RFC *)
+Lemma lower_inv k c : (k <? 97) || (122 <? k) = true -> lower_byte c = k -> c = k.
+Proof.
+  unfold lower_byte. intros Hk.
+  destruct ((65 <=? c) && (c <=? 90)) eqn:E; [|auto].
+  apply andb_true_iff in E as [E1 E2]. apply N.leb_le in E1, E2.
+  intros <-. apply orb_true_iff in Hk as [Hk | Hk]; apply N.ltb_lt in Hk; lia.
+Qed.
+
+Lemma is_ows_lower c : is_ows (lower_byte c) = is_ows c.
+Proof.
+  unfold is_ows, lower_byte. destruct ((65 <=? c) && (c <=? 90)) eqn:E; [|reflexivity].
+  apply andb_true_iff in E as [E1 E2]. apply N.leb_le in E1, E2.
+  assert (H1 : c + 32 =? 32 = false) by (apply N.eqb_neq; lia).
+  assert (H2 : c + 32 =? 9 = false) by (apply N.eqb_neq; lia).
+  assert (H3 : c =? 32 = false) by (apply N.eqb_neq; lia).
+  assert (H4 : c =? 9 = false) by (apply N.eqb_neq; lia).
+  rewrite H1, H2, H3, H4. reflexivity.
+Qed.
+
+Lemma ltrim_lower v : ltrim (to_lower v) = to_lower (ltrim v).
+Proof.
+  unfold to_lower. induction v as [|c v IH]; simpl; [reflexivity|].
+  rewrite is_ows_lower. destruct (is_ows c); [exact IH | reflexivity].
+Qed.
+
+Lemma trim_lower v : trim (to_lower v) = to_lower (trim v).
+Proof.
+  unfold trim. rewrite ltrim_lower. unfold to_lower at 1. rewrite <- map_rev.
+  fold (to_lower (rev (ltrim v))). rewrite ltrim_lower. unfold to_lower. rewrite <- map_rev. reflexivity.
+Qed.
+
+Lemma forallb_zero_lower r : forallb (N.eqb 48) (to_lower r) = true -> forallb (N.eqb 48) r = true.
+Proof.
+  unfold to_lower. induction r as [|c r IH]; cbn [map forallb]; [auto|].
+  intros H. apply andb_true_iff in H as [Hc Hr]. apply N.eqb_eq in Hc. symmetry in Hc.
+  apply lower_inv in Hc; [|reflexivity]. subst c. rewrite N.eqb_refl. exact (IH Hr).
+Qed.
+
+Lemma zero_q_lower w : is_zero_q (to_lower w) = true -> zero_qvalue w = true.
+Proof.
+  unfold is_zero_q, zero_qvalue. change (bs "0") with [48]. change (bs "0.") with [48; 46].
+  intros H. apply orb_true_iff in H as [H | H]; apply orb_true_iff.
+  - left. apply beq_eq in H. destruct w as [|a [|b w]]; cbn [to_lower map] in H; try discriminate.
+    injection H as H. apply lower_inv in H; [|reflexivity]. subst a. reflexivity.
+  - right. apply andb_true_iff in H as [Hp Hz].
+    destruct w as [|a [|b w]]; cbn [to_lower map has_prefix] in Hp.
+    + discriminate.
+    + apply andb_true_iff in Hp as [_ Hp]. discriminate.
+    + apply andb_true_iff in Hp as [Ha Hb]. apply andb_true_iff in Hb as [Hb _].
+      apply N.eqb_eq in Ha, Hb.
+      apply lower_inv in Ha; [|reflexivity]. apply lower_inv in Hb; [|reflexivity]. subst a b.
+      cbn [to_lower map skipn] in Hz. fold (to_lower w) in Hz.
+      cbn [has_prefix skipn]. rewrite !N.eqb_refl. cbn [andb].
+      replace (has_prefix w []) with true by (destruct w; reflexivity). cbn [andb].
+      apply forallb_zero_lower. exact Hz.
+Qed.
+
+Lemma spec_zero_refuses p :
+  (let p' := to_lower (trim p) in has_prefix p' (bs "q=") && is_zero_q (trim (skipn 2 p'))) = true ->
+  q_refuses p = true.
+Proof.
+  unfold q_refuses. cbv zeta. destruct (trim p) as [|c1 [|c2 v]]; simpl; try discriminate.
+  - intros H. apply andb_true_iff in H as [H _]. apply andb_true_iff in H as [_ H]. discriminate.
+  - intros H. apply andb_true_iff in H as [Hp Hz].
+    apply andb_true_iff in Hp as [H1 H2]. apply andb_true_iff in H2 as [H2 _].
+    apply N.eqb_eq in H1, H2.
+    fold (to_lower v) in Hz. rewrite trim_lower in Hz. apply zero_q_lower in Hz. rewrite Hz.
+    apply lower_inv in H2; [|reflexivity]. subst c2. rewrite N.eqb_refl.
+    unfold lower_byte in H1. destruct ((65 <=? c1) && (c1 <=? 90)) eqn:E.
+    + assert (c1 = 81) by lia. subst c1. reflexivity.
+    + subst c1. reflexivity.
+Qed.
+
+Lemma accepts_offers ae : accepts_gzip ae = true -> offers_gzip ae = true.
+Proof.
+  unfold accepts_gzip, offers_gzip, offers. intros H.
+  apply existsb_exists in H as (e & Hin & He).
+  unfold coding_offers_gzip in He. cbv zeta in He. apply andb_true_iff in He as [Hname Hq].
+  set (entry := fun e : bytes => let parts := split 59 e in (to_lower (trim (hd [] parts)), qzero (tl parts))).
+  assert (Hent : In (entry e) (ae_entries ae)) by (unfold ae_entries; apply in_map; exact Hin).
+  assert (Hn : existsb (beq (fst (entry e))) [GZIP; bs "x-gzip"] = true).
+  { unfold entry. cbn [fst]. apply orb_true_iff in Hname as [Hn | Hn]; apply beq_eq in Hn; rewrite Hn; reflexivity. }
+  assert (Hz : snd (entry e) = false).
+  { unfold entry. cbn [snd]. unfold qzero.
+    match goal with |- ?x = false => destruct x eqn:E end; [|reflexivity].
+    apply existsb_exists in E as (p & Hp & Hpz). apply spec_zero_refuses in Hpz.
+    apply negb_true_iff in Hq.
+    assert (existsb q_refuses (tl (split 59 e)) = true) by (apply existsb_exists; exists p; split; assumption).
+    congruence. }
+  assert (Hf : In (entry e) (filter (fun x => existsb (beq (fst x)) [GZIP; bs "x-gzip"]) (ae_entries ae)))
+    by (apply filter_In; split; assumption).
+  destruct (filter _ (ae_entries ae)) as [|x ex] eqn:Ef; [destruct Hf|].
+  apply existsb_exists. exists (entry e). split; [exact Hf | rewrite Hz; reflexivity].
+Qed.
+
+Lemma identity_when_not_offered cs cfgs path ae s :
+  offers_gzip ae = false -> gzip_serve dexts cs cfgs path ae s = run_plain s.
+Proof.
+  intros H. apply identity_when_not_accepted.
+  destruct (accepts_gzip ae) eqn:E; [|reflexivity].
+  apply accepts_offers in E. congruence.
+Qed.
 
 (* ---- request filters ---- *)
 Lemma find_none_all {A} (f : A -> bool) l : (forall x, In x l -> f x = false) -> find f l = None.
@@ -502,21 +668,21 @@ Qed.
 
 Lemma excluded_identity cs cfgs path ae s :
   (forall c, In c cfgs -> req_ok dexts cs path c = false) ->
-  gzip_serve sl dexts cs cfgs path ae s = run_plain s.
+  gzip_serve dexts cs cfgs path ae s = run_plain s.
 Proof.
   intros H. unfold gzip_serve. rewrite (find_none_all _ _ H).
-  destruct (negb (contains ae GZIP)); reflexivity.
+  destruct (negb (accepts_gzip ae)); reflexivity.
 Qed.
 
 (* ---- min_length ---- *)
 Lemma min_length_respected cs cfgs path ae s c :
-  wb s = true -> find (req_ok dexts cs path) cfgs = Some c -> c_min c <> 0%Z ->
+  find (req_ok dexts cs path) cfgs = Some c -> c_min c <> 0%Z ->
   (r_cl (run_plain s) = [] \/
    exists v r, r_cl (run_plain s) = v :: r /\ forall n, parse_int v = Some n -> (n < c_min c)%Z) ->
-  gzip_serve sl dexts cs cfgs path ae s = run_plain s.
+  gzip_serve dexts cs cfgs path ae s = run_plain s.
 Proof.
-  intros Hwb Hf Hmin Hcl.
-  destruct (serve_cases cs cfgs path ae s Hwb) as [-> | (c' & H & code & wr & _ & Hf' & Hok & Hp & ->)]; [reflexivity|].
+  intros Hf Hmin Hcl.
+  destruct (serve_cases cs cfgs path ae s) as [-> | (c' & H & H1 & H2 & code & wr & _ & Hf' & Hok & Hp & ->)]; [reflexivity|].
   rewrite Hf in Hf'. injection Hf' as <-.
   exfalso. rewrite Hp in Hcl. unfold r_cl in Hcl. rewrite hdr_plain in Hcl.
   unfold resp_ok in Hok. apply andb_true_iff in Hok as [_ Hl].
@@ -531,16 +697,15 @@ Qed.
 
 (* ---- headers of a compressed response ---- *)
 Lemma compressed_headers cs cfgs path ae s :
-  wb s = true ->
-  let out := gzip_serve sl dexts cs cfgs path ae s in
+  let out := gzip_serve dexts cs cfgs path ae s in
   applied out = [GZIP] ->
   r_ce out = [GZIP] /\ r_cl out = [] /\ In V_AE (hvals (r_hdr out) K_VARY) /\
   hget (r_hdr out) K_ETAG = weak_of (hget (r_hdr (run_plain s)) K_ETAG).
 Proof.
-  intros Hwb out Happ. unfold out in *.
-  destruct (wb_shape_of s Hwb) as (H0 & oc0 & wr0 & Hs0).
-  pose proof (plain_of_shape _ _ _ _ Hs0) as Hp0.
-  destruct (serve_cases cs cfgs path ae s Hwb) as [E | (c & H & code & wr & _ & _ & Hok & Hp & E)]; rewrite E in *.
+  intros out Happ. unfold out in *.
+  destruct (shape_of s) as (H0 & H0' & oc0 & wr0 & r0 & Hs0).
+  pose proof (plain_of_shape _ _ _ _ _ _ Hs0) as Hp0.
+  destruct (serve_cases cs cfgs path ae s) as [E | (c & H & H1 & H2 & code & wr & _ & _ & Hok & Hp & E)]; rewrite E in *.
   - unfold applied in Happ. rewrite Hp0, has_gz_plain in Happ. discriminate.
   - rewrite Hp. unfold r_ce, r_cl. rewrite hdr_gz, hdr_plain.
     repeat split; [apply gz_hdr_ce | apply gz_hdr_cl | apply gz_hdr_vary | apply gz_hdr_etag].
@@ -548,17 +713,18 @@ Qed.
 
 (* ---- and it does compress when everything says so ---- *)
 Lemma compresses_when_eligible cs cfgs path ae s c :
-  wb s = true -> forallb is_hdr s = false ->
-  contains ae GZIP = true -> find (req_ok dexts cs path) cfgs = Some c ->
-  resp_ok sl c (r_hdr (run_plain s)) = true ->
-  applied (gzip_serve sl dexts cs cfgs path ae s) = [GZIP].
+  forallb is_hdr s = false ->
+  accepts_gzip ae = true -> find (req_ok dexts cs path) cfgs = Some c ->
+  resp_ok c (r_hdr (run_plain s)) = true ->
+  applied (gzip_serve dexts cs cfgs path ae s) = [GZIP].
 Proof.
-  intros Hwb Hnh Hae Hf Hok. unfold gzip_serve. rewrite Hae, Hf. simpl.
-  destruct (wb_shape_of s Hwb) as (H & oc & wr & Hs).
-  rewrite (gz_of_shape sl c s H oc wr Hs).
-  rewrite (plain_of_shape _ _ _ _ Hs), hdr_plain in Hok.
-  destruct Hs as [hs Hhs | hs code ws Hhs Hws | hs b ws Hhs Hws].
+  intros Hnh Hae Hf Hok. unfold gzip_serve. rewrite Hae, Hf. simpl.
+  destruct (shape_of s) as (H & H' & oc & wr & r & Hs).
+  rewrite (gz_of_shape c s H H' oc wr r Hs).
+  rewrite (hdr_of_shape _ _ _ _ _ _ Hs) in Hok.
+  destruct Hs as [hs Hhs | hs code r Hhs | hs b r Hhs | hs r Hhs].
   - congruence.
+  - rewrite Hok. reflexivity.
   - rewrite Hok. reflexivity.
   - rewrite Hok. reflexivity.
 Qed.
@@ -609,20 +775,18 @@ Proof.
   - apply beq_eq. exact He.
 Qed.
 
-Lemma static_wb prio head ae data sibs : wb (static_script prio head ae data sibs) = true.
-Proof.
-  unfold static_script, static_hdrs.
-  destruct (select_sibling prio ae _) as [[name ext]|]; destruct head; reflexivity.
-Qed.
+Definition static_tail (prio : list (bytes * bytes)) (head : bool) (ae data : bytes) (sibs : list (bytes * bytes)) : list op :=
+  if head then [] else [OWrite (snd (static_hdrs prio ae data sibs))].
 
 Lemma static_shape prio head ae data sibs :
-  wb_shape (static_script prio head ae data sibs)
-           (apply_hdrs (fst (static_hdrs prio ae data sibs)) []) (Some 200%Z)
-           (writes (if head then [] else [OWrite (snd (static_hdrs prio ae data sibs))])).
+  shape (static_script prio head ae data sibs)
+        (apply_hdrs (fst (static_hdrs prio ae data sibs)) [])
+        (apply_hdrs (static_tail prio head ae data sibs) (apply_hdrs (fst (static_hdrs prio ae data sibs)) []))
+        (Some 200%Z)
+        (writes (static_tail prio head ae data sibs)) (static_tail prio head ae data sibs).
 Proof.
-  unfold static_script. apply shape_wh.
-  - unfold static_hdrs. destruct (select_sibling prio ae _) as [[name ext]|]; reflexivity.
-  - destruct head; reflexivity.
+  unfold static_script. apply (shape_wh _ 200%Z (static_tail prio head ae data sibs)).
+  unfold static_hdrs. destruct (select_sibling prio ae _) as [[name ext]|]; reflexivity.
 Qed.
 
 Lemma static_ce prio head ae data sibs :
@@ -632,7 +796,7 @@ Lemma static_ce prio head ae data sibs :
   | None => []
   end.
 Proof.
-  rewrite (plain_of_shape _ _ _ _ (static_shape prio head ae data sibs)).
+  rewrite (plain_of_shape _ _ _ _ _ _ (static_shape prio head ae data sibs)).
   unfold r_ce. rewrite hdr_plain. unfold static_hdrs.
   destruct (select_sibling prio ae _) as [[name ext]|]; unfold apply_hdrs; cbn [fst fold_left hdr_fun].
   - rewrite hvals_hset_other by exact etag_ne_ce. rewrite hvals_hset_other by exact cl_ne_ce.
@@ -640,93 +804,61 @@ Proof.
   - rewrite hvals_hset_other by exact cl_ne_ce. rewrite hvals_hset_other by exact etag_ne_ce. reflexivity.
 Qed.
 
-Lemma static_sibling_not_reencoded sl dexts prio cs cfgs path ae head data sibs name ext :
+Lemma static_sibling_not_reencoded dexts prio cs cfgs path ae head data sibs name ext :
   select_sibling prio ae (fun e => match sib_data sibs e with Some _ => true | None => false end) = Some (name, ext) ->
-  In name sl ->
-  gzip_serve sl dexts cs cfgs path ae (static_script prio head ae data sibs) =
+  is_identity name = false ->
+  gzip_serve dexts cs cfgs path ae (static_script prio head ae data sibs) =
   run_plain (static_script prio head ae data sibs).
 Proof.
-  intros Hsel Hin. apply (not_double_encoded sl dexts cs cfgs path ae _ name).
-  - apply static_wb.
-  - rewrite static_ce, Hsel. reflexivity.
-  - exact Hin.
+  intros Hsel Hid. apply (not_double_encoded dexts cs cfgs path ae _).
+  rewrite static_ce, Hsel. unfold no_coding. simpl. rewrite Hid. reflexivity.
 Qed.
 
-Lemma static_plain_transparent sl dexts prio gz gunzip :
+(* every name on the file server's priority list (current sources, Gen_C18.v) is a real coding *)
+Lemma prio_names_codings n : In n (map fst gen_c18_static_priority) -> is_identity n = false.
+Proof.
+  assert (H : forallb (fun n => negb (is_identity n)) (map fst gen_c18_static_priority) = true)
+    by (vm_compute; reflexivity).
+  intros Hin. apply negb_true_iff. exact (proj1 (forallb_forall _ _) H n Hin).
+Qed.
+
+Lemma static_sibling_not_reencoded_full dexts cs cfgs path ae head data sibs name ext :
+  select_sibling gen_c18_static_priority ae
+    (fun e => match sib_data sibs e with Some _ => true | None => false end) = Some (name, ext) ->
+  gzip_serve dexts cs cfgs path ae (static_script gen_c18_static_priority head ae data sibs) =
+  run_plain (static_script gen_c18_static_priority head ae data sibs).
+Proof.
+  intros Hsel. apply (static_sibling_not_reencoded _ _ _ _ _ _ _ _ _ name ext Hsel).
+  apply prio_names_codings. destruct (select_sibling_sound _ _ _ _ _ Hsel) as (_ & _ & l1 & l2 & E & _).
+  rewrite E, map_app. apply in_or_app. right. left. reflexivity.
+Qed.
+
+Lemma static_plain_transparent dexts prio gz gunzip :
   (forall ws, gunzip (gz ws) = Some (concat ws)) ->
   forall cs cfgs path ae head data sibs,
   select_sibling prio ae (fun e => match sib_data sibs e with Some _ => true | None => false end) = None ->
-  client_body gz gunzip head (gzip_serve sl dexts cs cfgs path ae (static_script prio head ae data sibs))
+  client_body gz gunzip head (gzip_serve dexts cs cfgs path ae (static_script prio head ae data sibs))
   = Some (if bodyless head 200 then [] else data).
 Proof.
   intros Hrt cs cfgs path ae head data sibs Hsel.
-  rewrite (client_view sl dexts gz gunzip Hrt); [| apply static_wb | rewrite static_ce, Hsel; reflexivity].
-  f_equal. rewrite (plain_of_shape _ _ _ _ (static_shape prio head ae data sibs)).
-  rewrite wire_plain. unfold static_hdrs. rewrite Hsel. cbn [snd].
+  rewrite (client_view dexts gz gunzip Hrt); [| rewrite static_ce, Hsel; reflexivity].
+  f_equal. rewrite (plain_of_shape _ _ _ _ _ _ (static_shape prio head ae data sibs)).
+  rewrite wire_plain. unfold static_tail, static_hdrs. rewrite Hsel. cbn [snd].
   destruct head; simpl; [reflexivity | apply app_nil_r].
 Qed.
 
 (* ------------------------------------------------------------------------------------------ *)
-(* refutation witnesses (the model is faithful to the code, the code is not to the property) *)
+(* tables used by the examples *)
 
 Definition bare : gcfg := {| c_exts := []; c_not := []; c_min := 0 |}.
 Definition dexts_min : list bytes := [[]; bs ".txt"].
-
-Lemma zstd_double_encoded_witness :
-  let s := [OSet K_CE (bs "zstd"); OWrite [1; 2; 3]] in
-  let ae := bs "zstd, gzip" in
-  let out := gzip_serve skip_snapshot dexts_min false [bare] (bs "/x") ae s in
-  wb s = true /\ r_ce (run_plain s) = [bs "zstd"] /\ In (bs "zstd") (map fst priority_snapshot) /\
-  applied out = [GZIP] /\ r_ce out = [GZIP].
-Proof. vm_compute. repeat split; auto. Qed.
-
-Lemma zstd_not_transparent gz gunzip :
-  let s := [OSet K_CE (bs "zstd"); OWrite [1; 2; 3]] in
-  ~ transparent gz gunzip false
-      (gzip_serve skip_snapshot dexts_min false [bare] (bs "/x") (bs "zstd, gzip") s) (run_plain s).
-Proof.
-  intros s (_ & [(Hce & _) | (Hce & _)]); vm_compute in Hce; discriminate.
-Qed.
-
-Lemma flush_first_witness :
-  let s := [OFlush; OWrite [1; 2; 3]] in
-  let out := gzip_serve skip_snapshot dexts_min false [bare] (bs "/x") (bs "gzip") s in
-  r_ce (run_plain s) = [] /\ applied out = [GZIP] /\ r_ce out = [] /\
-  forall gz, wire gz false out = gz [[1; 2; 3]] /\ wire gz false (run_plain s) = [1; 2; 3].
-Proof.
-  vm_compute. repeat split; auto. apply app_nil_r.
-Qed.
-
-Lemma repeated_writeheader_witness :
-  let s := [OWriteHeader 200; OWriteHeader 200; OWrite [1; 2; 3]] in
-  let out := gzip_serve skip_snapshot dexts_min false [bare] (bs "/x") (bs "gzip") s in
-  r_ce out = [GZIP] /\ r_segs out = [SP [1; 2; 3]; SG []].
-Proof. vm_compute. split; reflexivity. Qed.
-
-Lemma q0_witness :
-  let s := [OWrite [1; 2; 3]] in
-  let ae := bs "gzip;q=0" in
-  offers_gzip ae = false /\ wb s = true /\
-  applied (gzip_serve skip_snapshot dexts_min false [bare] (bs "/x") ae s) = [GZIP].
-Proof. vm_compute. repeat split; reflexivity. Qed.
-
-Lemma static_zstd_witness :
-  let sibs := [(bs ".zst", [40; 181; 47; 253])] in
-  let ae := bs "zstd, gzip" in
-  let s := static_script priority_snapshot false ae [100; 97; 116; 97] sibs in
-  select_sibling priority_snapshot ae (fun e => match sib_data sibs e with Some _ => true | None => false end)
-    = Some (bs "zstd", bs ".zst") /\
-  r_ce (run_plain s) = [bs "zstd"] /\
-  applied (gzip_serve skip_snapshot dexts_min false [bare] (bs "/f.txt") ae s) = [GZIP] /\
-  r_ce (gzip_serve skip_snapshot dexts_min false [bare] (bs "/f.txt") ae s) = [GZIP].
-Proof. vm_compute. repeat split; reflexivity. Qed.
 
 (* Content-Length of static responses: FormatInt of the number of bytes sent, or dropped *)
 Lemma static_cl_plain prio ae data sibs :
   r_cl (run_plain (static_script prio false ae data sibs)) =
   [decimal (N.of_nat (length (snd (static_hdrs prio ae data sibs))))].
 Proof.
-  rewrite (plain_of_shape _ _ _ _ (static_shape prio false ae data sibs)).
+  rewrite (plain_of_shape _ _ _ _ _ _ (static_shape prio false ae data sibs)).
   unfold r_cl. rewrite hdr_plain. unfold static_hdrs.
   destruct (select_sibling prio ae _) as [[name ext]|]; unfold apply_hdrs; cbn [fst snd fold_left hdr_fun].
   - rewrite hvals_hset_other by exact etag_ne_cl. apply hvals_hset_same.
@@ -736,17 +868,17 @@ Qed.
 Lemma static_wire_plain gz prio ae data sibs :
   wire gz false (run_plain (static_script prio false ae data sibs)) = snd (static_hdrs prio ae data sibs).
 Proof.
-  rewrite (plain_of_shape _ _ _ _ (static_shape prio false ae data sibs)).
+  rewrite (plain_of_shape _ _ _ _ _ _ (static_shape prio false ae data sibs)).
   rewrite wire_plain. simpl. apply app_nil_r.
 Qed.
 
-Lemma static_content_length sl dexts prio gz cs cfgs path ae data sibs :
-  let out := gzip_serve sl dexts cs cfgs path ae (static_script prio false ae data sibs) in
+Lemma static_content_length dexts prio gz cs cfgs path ae data sibs :
+  let out := gzip_serve dexts cs cfgs path ae (static_script prio false ae data sibs) in
   r_cl out = [] \/ r_cl out = [decimal (N.of_nat (length (wire gz false out)))].
 Proof.
   intros out. unfold out.
-  destruct (serve_cases sl dexts cs cfgs path ae _ (static_wb prio false ae data sibs))
-    as [-> | (c & H & code & wr & _ & _ & Hok & Hp & ->)].
+  destruct (serve_cases dexts cs cfgs path ae (static_script prio false ae data sibs))
+    as [-> | (c & H & H1 & H2 & code & wr & _ & _ & Hok & Hp & ->)].
   - right. rewrite static_cl_plain, static_wire_plain. reflexivity.
   - left. unfold r_cl. rewrite hdr_gz. apply gz_hdr_cl.
 Qed.
